@@ -5,7 +5,7 @@ Each variant file is parsed in its own namespace by re-including it with all of 
 renamed by a prefix (the same device the C harness uses to link all variants side by side).
 """
 import os, re, hashlib
-from . import cfun, math_varargs, math_float
+from . import cfun, math_varargs, math_float, math_asm
 from .cfun import GenError
 
 VARIANTS = [
@@ -232,8 +232,10 @@ def c_dispatch(repo, meta):
     """C source fragment (included by harness/mathv.c): all variants side by side + a dispatch function"""
     inc = os.path.join(repo, "include", "aws", "common")
     tu = tu_text(repo, VARIANTS + [ASM])
-    out = [tu, "#include <stdio.h>", "#include <string.h>", "#include <aws/common/error.h>",
-           "static int mathv_dispatch(const char *v, const char *f, int n, const unsigned long long *a) {"]
+    head = [tu, "#include <stdio.h>", "#include <string.h>", "#include <aws/common/error.h>",
+            "static volatile unsigned long long ctx_sink;"]
+    ctx_fns = []
+    out = ["static int mathv_dispatch(const char *v, const char *f, int n, const unsigned long long *a) {"]
     entries = list(meta)
     # the assembly variant has the same signatures as the overflow variant
     asm_names = [nm for _, nm, _ in cfun.inl_functions(os.path.join(inc, ASM[1]))]
@@ -270,6 +272,37 @@ def c_dispatch(repo, meta):
             body = (f"unsigned long long r = (unsigned long long)({UT[info['ret'][0]]}){m['cname']}({', '.join(args)}); "
                     f'printf("P val %llu\\n", r); return 1;')
         out.append("    " + cond + " " + body + " }")
+        if m["variant"] == "ax":
+            # the assembly is inlined into its caller, so what the register allocator does with the operands depends on
+            # the calling context: besides the direct call, three more contexts compiled at -O2 (operands from memory and
+            # the result stored through a volatile pointer in a loop; the sum of two calls; a loop accumulator beside
+            # another live value)
+            cn, nm = m["cname"], m["name"]
+            if info["kind"] == "status":
+                T = CT[[p for p in info["params"] if p[1][0] == "ptr"][0][1][1]]
+                ctx_fns.append(
+                    f"static __attribute__((noinline)) void ctxs_{cn}(const {T} *as, const {T} *bs, volatile {T} *out, volatile int *rcs, int n) {{ for (int i = 0; i < n; ++i) {{ {T} o = 0; rcs[i] = {cn}(as[i], bs[i], &o); out[i] = o; }} }}\n"
+                    f"static __attribute__((noinline)) int ctxp_{cn}({T} a, {T} b, {T} c, {T} d, unsigned long long *s) {{ {T} x = 0, y = 0; int r1 = {cn}(a, b, &x); int r2 = {cn}(c, d, &y); *s = (unsigned long long)x + (unsigned long long)y; return r1 | r2; }}\n"
+                    f"static __attribute__((noinline)) int ctxa_{cn}(const {T} *as, const {T} *bs, int n, unsigned long long k, unsigned long long *s) {{ unsigned long long acc = 0, live = k; int bad = 0; for (int i = 0; i < n; ++i) {{ {T} o = 0; bad |= {cn}(as[i], bs[i], &o); acc += o; live = (live << 1) ^ acc; }} ctx_sink = live; *s = acc; return bad; }}")
+                pre = f"{T} as[3] = {{({T})a[0], ({T})a[1], ({T})a[0]}}, bs[3] = {{({T})a[1], ({T})a[0], ({T})a[1]}}; unsigned long long s = 0; int rc; aws_reset_error(); "
+                fin = 'if (rc == 0) printf("P ok %llu\\n", s); else printf("P err %d\\n", aws_last_error()); return 1;'
+                ctxs = [("store", f"volatile {T} o3[3]; volatile int r3[3]; ctxs_{cn}(as, bs, o3, r3, 3); rc = r3[0]; s = o3[0]; "),
+                        ("sum", f"rc = ctxp_{cn}(as[0], bs[0], as[1], bs[1], &s); "),
+                        ("acc", f"rc = ctxa_{cn}(as, bs, 3, a[0] ^ a[1], &s); ")]
+            else:
+                T = CT[info["ret"]]
+                ctx_fns.append(
+                    f"static __attribute__((noinline)) void ctxs_{cn}(const {T} *as, const {T} *bs, volatile {T} *out, int n) {{ for (int i = 0; i < n; ++i) {{ out[i] = {cn}(as[i], bs[i]); }} }}\n"
+                    f"static __attribute__((noinline)) unsigned long long ctxp_{cn}({T} a, {T} b, {T} c, {T} d) {{ return (unsigned long long){cn}(a, b) + (unsigned long long){cn}(c, d); }}\n"
+                    f"static __attribute__((noinline)) unsigned long long ctxa_{cn}(const {T} *as, const {T} *bs, int n, unsigned long long k) {{ unsigned long long acc = 0, live = k; for (int i = 0; i < n; ++i) {{ acc += {cn}(as[i], bs[i]); live = (live << 1) ^ acc; }} ctx_sink = live; return acc; }}")
+                pre = f"{T} as[3] = {{({T})a[0], ({T})a[1], ({T})a[0]}}, bs[3] = {{({T})a[1], ({T})a[0], ({T})a[1]}}; unsigned long long s = 0; "
+                fin = 'printf("P val %llu\\n", s); return 1;'
+                ctxs = [("store", f"volatile {T} o3[3]; ctxs_{cn}(as, bs, o3, 3); s = o3[0]; "),
+                        ("sum", f"s = ctxp_{cn}(as[0], bs[0], as[1], bs[1]); "),
+                        ("acc", f"s = ctxa_{cn}(as, bs, 3, a[0] ^ a[1]); ")]
+            for cx, code in ctxs:
+                condx = cond.replace(f'"{nm}")', f'"{nm}@{cx}")')
+                out.append("    " + condx + " " + pre + code + fin + " }")
         if info["kind"] == "value" and info["outs"]:
             cond0 = cond.replace(f'"{m["name"]}")', f'"{m["name"]}:null")')
             args0 = ["NULL" if a == "&out" else a for a in args]
@@ -277,4 +310,9 @@ def c_dispatch(repo, meta):
                      f'printf("P val %llu\\n", r); return 1;')
             out.append("    " + cond0 + " " + body0 + " }")
     out.append("    return 0;\n}")
-    return "\n".join(out) + "\n", entries
+    return "\n".join(head + ctx_fns + out) + "\n", entries
+
+
+def asm_shapes(repo):
+    """Lean text of Gen/MathAsmShapes.lean (shape table of the inline-assembly statements)"""
+    return math_asm.lean_text(math_asm.extract(repo))
